@@ -144,11 +144,29 @@ PROPS = {
     },
     'C09': {
         'modules': ['contracts.c09'],
-        'level': 'other',
+        'level': 'proof',
         'trusted_base': COMMON_TB,
-        'assumptions': [],
-        'level_text': 'wip', 'level_note': 'wip', 'design_ref': 'DESIGN.md 5 C09',
-        'explanation': 'value semantics contracts',
+        'assumptions': [
+            'heap model: objects passed with heap=True are separate heap cells; lists of heap objects only with a concrete '
+            'length (copy-constructor and signature-hash frame contracts are for 2 inputs and 1 output)',
+            'object.__setattr__ / list / tuple built-ins modelled by pyvc',
+            'the whole-history statement (all interleavings) is NOT a per-call contract: it is sampled by the bounded unit',
+        ],
+        'level_text': 'PROVED per call, for all field values: __setattr__ and __delattr__ as resolved through each of the 9 '
+                      'immutable classes always raise AttributeError; GetHash/__hash__/GetTxid as resolved through each MUTABLE '
+                      'class recompute from the current fields whatever a left-over cache slot holds (so a class that loses '
+                      'the __make_mutable resets fails); GetHash/__hash__ of the immutable classes equal the hash of the '
+                      'serialisation; from_outpoint/from_txin/from_txout in both directions return NEW objects (new outpoints '
+                      'inside inputs) with equal field values. PROVED FOR A FIXED SHAPE (2 inputs, 1 output - bounded in length): '
+                      'CTransaction.from_tx / CMutableTransaction.from_tx share no input, outpoint, output or list with the source; '
+                      'RawSignatureHash leaves every field of the transaction it is given unchanged for every hash-type byte and '
+                      'input index. BOUNDED: operation histories from a 27-operation catalogue (assignments, list edits, witness '
+                      'replacement, snapshots, mutable copies, ids, signature hashes, script verification) against a plain value '
+                      'model - all histories of length <= 2 exhaustively, random length-3 and longer ones up to 12.',
+        'level_note': 'trusted: pyvc heap model, z3/cvc5; interleavings are explored by the bounded unit only (whole-history '
+                      'properties are outside per-call contracts)',
+        'design_ref': 'DESIGN.md 5 C09',
+        'explanation': 'immutability, identifier and copy-constructor contracts; bounded history unit',
     },
     'C10': {
         'modules': ['contracts.c10'],
